@@ -539,6 +539,10 @@ def oracle_c03(H, evs, fail):
 def oracle_c12(H, evs, fail):
     """batch results are positional"""
     metas = {m["h"]: m for _, m in H.ev if m.get("kind") == "batch"}
+    metas_answers = {}
+    for _, m in H.ev:
+        if m.get("what") == "batch-answer" and m.get("objs") is not None:
+            metas_answers.setdefault(m["h"], []).extend(m["objs"])
     for k, d in enumerate(evs):
         for h, rs in d["C"].items():
             if h not in metas:
@@ -559,6 +563,28 @@ def oracle_c12(H, evs, fail):
                     mid = marker_id(payload_of(it))
                     if mid is not None and mid != lo + j:
                         fail("batch-entry-misplaced", "batch %d entry %d (id %d) holds the answer to id %d" % (h, j, lo + j, mid))
+                objs_meta = metas_answers.get(h)
+                if objs_meta is not None:
+                    def reading(i):
+                        if isinstance(i, bool) or i is None:
+                            return None
+                        if isinstance(i, int):
+                            return i if 0 <= i < 2 ** 64 else None
+                        if isinstance(i, str):
+                            t = i[1:] if i[:1] == "+" else i
+                            return int(t) if t and t.isascii() and t.isdigit() and int(t) < 2 ** 64 else None
+                        return None
+                    have = {}
+                    for o in objs_meta:
+                        if isinstance(o, dict):
+                            have.setdefault(reading(o.get("id")), []).append(o)
+                    have.pop(None, None)
+                    for j, it in enumerate(items):
+                        if it.startswith("ok:"):
+                            v = payload_of(it)
+                            if not any("result" in o and o["result"] == v for o in have.get(lo + j, [])):
+                                fail("batch-entry-filled-with-foreign-answer",
+                                     "batch %d entry %d (id %d) reports %r but no reply element with that id carries it" % (h, j, lo + j, v))
     # complete permuted replies must succeed with every entry filled
     for idx, (t, m) in enumerate(H.ev):
         if m.get("what") == "batch-answer" and m.get("mode") == "perm":
@@ -611,6 +637,10 @@ def oracle_c05(H, evs, fail):
         y, p = s["yielded"], s["pushes"]
         if y != p[:len(y)]:
             fail("stream-not-prefix-of-pushes", "subscription %d (sid %r): yielded %s, server pushed %s" % (h, s["sid"], y, p))
+    for h, want in (getattr(H, "expect_yield", None) or {}).items():
+        if h in subs and subs[h]["yielded"] != want and not any(d["F"] for d in evs):
+            fail("pushed-item-not-delivered", "subscription %d (sid %r) was polled often enough with room in its buffer: yielded %s, expected %s" % (
+                h, subs[h]["sid"], subs[h]["yielded"], want))
     # unsubscribe requests: at most one per subscription id, exactly one after an explicit unsubscribe
     unsub_frames = {}
     for k, o in wire_requests(evs):
@@ -1051,7 +1081,7 @@ def c12_batch_histories(rng, nmax=4, full=False):
                     ids.append(rng.choice(ids))
                     mode = "dup"
                 elif variant == "foreign":
-                    ids.append(rng.choice([lo + n, lo + n + 5, 2**64 - 1] + ([lo - 1] if lo else [])))
+                    ids.append(rng.choice([lo + n, lo + n + 5, 2**64 - 1, "EMPTY", "EMPTY"] + ([lo - 1] if lo else [])))
                     mode = "foreign"
                 elif variant == "two-batches":
                     H.op_batch()
@@ -1066,6 +1096,16 @@ def c12_batch_histories(rng, nmax=4, full=False):
                     H.batches.pop(hb2)
                     H.back(J(objs2), what="batch-answer", h=hb2, lo=lo2, n=n2, mode="perm", objs=objs2, items=[])
                 H.batches.pop(hb)
+                if "EMPTY" in ids:
+                    # an element whose id is the empty string: it has no numeric reading; placed last, or in place of the first answer
+                    ids = [i for i in ids if i != "EMPTY"]
+                    objs = [H.resp_ok(i) if rng.random() < 0.8 else H.resp_err(i) for i in ids]
+                    intruder = {"jsonrpc": "2.0", "id": "", "result": "intruder"}
+                    objs = (objs + [intruder]) if rng.random() < 0.5 else ([intruder] + objs[1:])
+                    H.back(J(objs), what="batch-answer", h=hb, lo=lo, n=n, mode=mode, objs=objs, items=[])
+                    H.clean = False
+                    out.append(H)
+                    continue
                 objs = [H.resp_ok(i) if rng.random() < 0.8 else H.resp_err(i) for i in ids]
                 H.back(J(objs), what="batch-answer", h=hb, lo=lo, n=n, mode=mode, objs=objs, items=[])
                 H.clean = False
@@ -1555,5 +1595,106 @@ def c03_idkind_histories(rng):
                     H.dead = True
                     H.op_call()
                     H.clean = False
+                    out.append(H)
+    return out
+
+
+
+def c05_dup_sid_histories(rng):
+    """a LATER subscribe call is answered with the id of a live subscription (the client rejects that call): the live subscription
+    must be unaffected -- its notifications keep arriving, an explicit unsubscribe is still sent, a server close still ends it"""
+    out = []
+    for idstr in (0, 1):
+        for sidkind in ("num", "str"):
+            for tail in ("poll", "unsub", "srvclose", "drop"):
+                for grouped in (False, True):
+                    H = new_hist(rng, idstr=idstr, qcap=16, bufcap=4, gate=0)
+                    H.op_sub()
+                    ha = H.h
+                    sa = accept_sub_h(H, ha, sid=(7 if sidkind == "num" else "X"))
+                    push_group(H, sa, ["p0"])
+                    H.op_sub()
+                    hb = H.h
+                    i, uid, um, nm = H.psubs.pop(hb)
+                    H.back(H.resp_ok(i, val=sa["sid"]), what="sub-dup", h=hb, id=i, uid=uid)
+                    H.answered.append(i)
+                    vals = ["p1", "p2"]
+                    if grouped:
+                        H.back(J([H.notif(sa["nm"], sa["sid"], v) for v in vals]), what="pushes",
+                               items=[dict(what="push", sid=sa["sid"], val=v) for v in vals], grouped=True)
+                    else:
+                        for v in vals:
+                            push_group(H, sa, [v])
+                    for _ in range(3):
+                        H.add("next %d" % ha, kind="next")
+                    H.expect_yield = {ha: ["p0", "p1", "p2"]}
+                    if tail == "unsub":
+                        H.add("unsub %d %d" % (H.newh(), ha), kind="unsub", sh=ha, sid=sa["sid"], uid=sa["uid"])
+                        H.expect_unsub = sa["sid"]
+                    elif tail == "drop":
+                        H.add("drop %d" % ha, kind="drop", sh=ha, sid=sa["sid"], uid=sa["uid"])
+                        H.expect_unsub = sa["sid"]
+                    elif tail == "srvclose":
+                        H.add("back %s" % hx(J(H.notif(sa["nm"], sa["sid"], "bye", err=True))), kind="back", what="close", sid=sa["sid"], h=ha, grouped=False)
+                        H.add("next %d" % ha, kind="next")
+                    H.clean = False
+                    out.append(H)
+    return out
+
+
+
+def c18_lag_srvclose_histories(rng):
+    """two close causes on one subscription: it lags (buffer 1, two unread pushes -> the read task queues a close request) and the
+    server closes it itself before the send task has handled that request (frames back to back, or all in one array frame);
+    afterwards everything is answered and drained: the client must hold nothing"""
+    out = []
+    for idstr in (0, 1):
+        for gate in (0, 1):
+            for shape in ("frames", "array", "array-close-first"):
+                for cycles in (0, 2):
+                    H = new_hist(rng, idstr=idstr, bufcap=1, gate=gate, qcap=16)
+                    rel = (lambda n=3: [H.add("release", kind="release") for _ in range(n)]) if gate else (lambda n=3: None)
+                    for _ in range(cycles):                     # ordinary subscribe / unsubscribe cycles first
+                        H.op_sub()
+                        hh = H.h
+                        rel()
+                        sx = accept_sub_h(H, hh)
+                        H.active.pop(hh)
+                        sx["gone"] = True
+                        H.ended.append(sx)
+                        H.unacked.append(sx["uid"])
+                        H.add("unsub %d %d" % (H.newh(), hh), kind="unsub", sh=hh, sid=sx["sid"], uid=sx["uid"])
+                        rel()
+                    H.op_sub()
+                    h = H.h
+                    rel()
+                    s = accept_sub_h(H, h)
+                    if gate:
+                        H.op_call()                          # the send task sits in this write while the frames below arrive
+                    pushes = [H.notif(s["nm"], s["sid"], "p%d" % k) for k in range(2)]
+                    close = H.notif(s["nm"], s["sid"], "bye", err=True)
+                    items = [dict(what="push", sid=s["sid"], val="p%d" % k) for k in range(2)]
+                    if shape == "frames":
+                        for o, it in zip(pushes, items):
+                            H.add("back %s" % hx(J(o)), kind="back", what="pushes", items=[it], grouped=False)
+                        H.add("back %s" % hx(J(close)), kind="back", what="close", sid=s["sid"], h=h, grouped=False)
+                    elif shape == "array":
+                        H.add("back %s" % hx(J(pushes + [close])), kind="back", what="close", sid=s["sid"], h=h, grouped=True, items=items)
+                    else:
+                        H.add("back %s" % hx(J([pushes[0], close, pushes[1]])), kind="back", what="close", sid=s["sid"], h=h, grouped=True, items=items[:1])
+                    H.active.pop(h, None)
+                    s["server_closed"] = True
+                    H.ended.append(s)
+                    rel(8)
+                    while H.calls:
+                        hc = sorted(H.calls)[0]
+                        i = H.calls.pop(hc)
+                        H.answered.append(i)
+                        H.add("back %s" % hx(J(H.resp_ok(i))), kind="back", what="answer", id=i, h=hc)
+                    for _ in range(3):
+                        H.add("next %d" % h, kind="next")
+                    rel(4)
+                    H.clean = True
+                    H.cleanup_from = len(H.ev)
                     out.append(H)
     return out
